@@ -408,15 +408,13 @@ impl Matcher {
 
             // Apply splits/unsplits first: the day's trades and later disposals are in current units
             for tx in &transactions[i..day_end] {
-                let factor = match &tx.operation {
-                    Operation::Split { ratio } => *ratio,
-                    Operation::Unsplit { ratio } if *ratio != Decimal::ZERO => {
-                        Decimal::ONE / *ratio
-                    }
+                let (ratio, consolidation) = match &tx.operation {
+                    Operation::Split { ratio } => (*ratio, false),
+                    Operation::Unsplit { ratio } => (*ratio, true),
                     _ => continue,
                 };
                 if let Some(ledger) = ledgers.get_mut(&tx.ticker) {
-                    ledger.rescale(factor);
+                    ledger.rescale(ratio, consolidation);
                 }
             }
 
